@@ -7,7 +7,7 @@
   mirror), each next to the statement that the repaired writer delivers the same call intact.
 -/
 import GoImap.Spec.CmdGrammar
-import GoImap.Lemmas.CmdGrammarListCmd
+import GoImap.Lemmas.CmdGrammarSearchTop
 namespace GoImap.C02
 open GoImap.CmdGrammar GoImap.CmdSpec GoImap.CmdLemmas
 
@@ -175,5 +175,40 @@ theorem cmd_fidelity_append (cfg : Cfg) (tag : Nat) (m : List Nat) (flags : List
 theorem cmd_fidelity_append_sem (cfg : Cfg) (m : List Nat) (flags : List Str) (time : Option ATime) (payload : Str) :
     [Cmd.append (canonMailbox m) (flags.map canonFlag) time payload].map canon = sem cfg (.append m flags time payload) :=
   append_sem cfg m flags time payload
+
+
+/-- SEARCH / UID SEARCH: every criteria tree — sequence and UID sets, the four date bounds (a since/before pair
+    on consecutive days travels as ON), header fields (the five address/subject keys as their own keys), BODY,
+    TEXT, flags and negated flags (system flags as their own keys, others as KEYWORD), LARGER, SMALLER, and
+    arbitrarily nested NOT / OR — with any return options, with or without CHARSET UTF-8.  `CritOK`: sets
+    canonical, strings within the server's limit, flags the encoder accepts, sizes non-negative. -/
+theorem cmd_fidelity_search (cfg : Cfg) (tag : Nat) (uid : Bool) (c : Crit) (o : Option SearchOpts) (hok : CritOK c) :
+    roundTrip {} cfg tag (.search uid c o) = .calls (sem cfg (.search uid c o)) :=
+  search_fidelity cfg tag uid c o hok
+
+/-- non-vacuity: `SMALLER 5 FROM "é" SINCE/BEFORE (one day) NOT (LARGER 1 \\Seen) OR (TEXT "x") (UID 1:3,7:*)` -/
+def sampleCrit : Crit :=
+  .mk { smaller := 5, header := [(str "from", [195, 169])], since := { day := jan1, inst := jan1 + 3600 },
+        before := { day := jan1 + 86400, inst := jan1 + 90000 } }
+    (.cons (.mk { larger := 1, flags := [[92, 83, 101, 101, 110]] } .nil .nil) .nil)
+    (.cons (.mk { text := [str "x"] } .nil .nil) (.mk { uidSets := [.set [⟨1, 3⟩, ⟨7, 0⟩]] } .nil .nil) .nil)
+
+example : CritOK sampleCrit := by
+  have hset : SetOK (.set [⟨1, 3⟩, ⟨7, 0⟩]) ∧ SetNF (.set [⟨1, 3⟩, ⟨7, 0⟩]) := by
+    refine ⟨⟨?_, by decide⟩, ?_⟩
+    · simp [NumSet.Canon, NumSet.CanonFrom, NumSet.Range.WF, NumSet.W]
+    · simp only [SetNF]; decide
+  have hseen : FlagOK [92, 83, 101, 101, 110] := by show isValidFlag _ = true; decide
+  simp only [sampleCrit, CritOK, NotsOK, OrsOK, and_true]
+  refine ⟨⟨?_, ?_, ?_, ?_, ?_, ?_, ?_, ?_, ?_⟩, ⟨?_, ?_, ?_, ?_, ?_, ?_, ?_, ?_, ?_⟩, ⟨?_, ?_, ?_, ?_, ?_, ?_, ?_, ?_, ?_⟩,
+    ⟨?_, ?_, ?_, ?_, ?_, ?_, ?_, ?_, ?_⟩⟩ <;>
+    first
+    | (intro x hx; simp at hx; done)
+    | (intro x hx; simp at hx; subst hx; first | exact hset | exact hseen | decide)
+    | decide
+
+example : roundTrip {} {} 7 (.search true sampleCrit (some { count := true, save := true })) =
+    .calls (sem {} (.search true sampleCrit (some { count := true, save := true }))) := by
+  decide +kernel
 
 end GoImap.C02
